@@ -175,6 +175,11 @@ class DropletTrack:
             return None
         else:
             d0 = self.first
+            if any(d.data.dtype != d0.data.dtype for d in self.droplets):
+                raise TypeError(
+                    "Track data cannot be stored contiguously if droplets have "
+                    "different data types"
+                )
             dtype = [("time", "f8")] + d0.data.dtype.descr
             result = np.empty(len(self), dtype=dtype)
             for i in range(len(self)):
